@@ -58,7 +58,33 @@ fn settle(el: &mut EventLoop<'static, ()>, prog: &Rc<RefCell<Progress>>) {
     }
 }
 
+/// C15 / C17: adapting an fd the poller refuses (a regular file: EPERM) must fail and leave nothing behind
+fn run_adaptfail(blocking: bool, out: &mut impl Write) {
+    let el: EventLoop<'static, ()> = EventLoop::try_new().unwrap();
+    let h = el.handle();
+    let f = std::fs::File::open("/proc/self/status").unwrap();
+    let probe = f.try_clone().unwrap();
+    rustix::fs::fcntl_setfl(&f, if blocking { rustix::fs::OFlags::empty() } else { rustix::fs::OFlags::NONBLOCK }).unwrap();
+    let before = h.verif_stats();
+    let r = h.adapt_io(f);
+    let after = h.verif_stats();
+    let same = before.slots == after.slots && before.occupied == after.occupied && before.lifecycle_len == after.lifecycle_len;
+    writeln!(
+        out,
+        "adaptfail err={} bookkeeping={} nonblock={}",
+        r.is_err() as u8,
+        if before.occupied == after.occupied && (same || after.slots >= before.slots) { "same" } else { "changed" },
+        is_nonblock(&probe) as u8
+    )
+    .unwrap();
+}
+
 fn run_case(lines: &[String], out: &mut impl Write) {
+    if lines.iter().any(|l| l.trim() == "mode adaptfail") {
+        let blocking = lines.iter().any(|l| l.trim() == "blocking 1");
+        run_adaptfail(blocking, out);
+        return;
+    }
     let mut mode_read = true;
     let mut blocking = true;
     let (mut total, mut chunk) = (0usize, 1usize);
@@ -92,7 +118,8 @@ fn run_case(lines: &[String], out: &mut impl Write) {
     let epfd = el.as_raw_fd();
     let h = el.handle();
     let (exec, sched) = executor::<()>().unwrap();
-    h.insert_source(exec, |_, _, _| {}).map_err(|e| e.error).unwrap();
+    let exec_tok = h.insert_source(exec, |_, _, _| {}).map_err(|e| e.error).unwrap();
+    let gave_back = Rc::new(std::cell::Cell::new(false));
     let prog = Rc::new(RefCell::new(Progress {
         pattern_ok: true,
         ..Default::default()
@@ -101,6 +128,7 @@ fn run_case(lines: &[String], out: &mut impl Write) {
     let created_nonblock = is_nonblock(&probe);
     {
         let prog = prog.clone();
+        let gave_back2 = gave_back.clone();
         sched
             .schedule(async move {
                 let mut io = adapter;
@@ -155,6 +183,7 @@ fn run_case(lines: &[String], out: &mut impl Write) {
                 // the transfer is over: give the fd back (into_inner) or drop the adapter
                 if end_into_inner {
                     let s = io.into_inner();
+                    gave_back2.set(true);
                     std::mem::forget(s); // keep the descriptor open: the harness still looks at the poller's table
                 } else {
                     drop(io);
@@ -202,6 +231,12 @@ fn run_case(lines: &[String], out: &mut impl Write) {
                 }
             }
             "settle" => settle(&mut el, &prog),
+            // the executor is removed while its task (which owns the adapter) is parked: the future is dropped,
+            // and with it the adapter — whose Drop re-enters the loop's source list
+            "removeexec" => {
+                h.remove(exec_tok);
+                prog.borrow_mut().done = true;
+            }
             "finishpeer" => {
                 // the peer keeps making progress (reads everything there is) and the loop keeps settling, until the
                 // task is done or a whole round changes nothing
@@ -246,7 +281,7 @@ fn run_case(lines: &[String], out: &mut impl Write) {
         )
         .unwrap();
     }
-    if end_into_inner {
+    if end_into_inner && gave_back.get() {
         unsafe { rustix::io::close(raw) };
     }
 }
